@@ -135,18 +135,18 @@ type runner struct {
 	stopPoll chan struct{}
 	pollWG   sync.WaitGroup
 
-	acked      []int            // per source: highest ordinal the receiver acknowledged with OK
-	lastQ      []map[string]int // per replica: ns|cluster -> ordinal at the last quiescent snapshot
-	lastQEpoch []map[string]int64 // per replica: ns -> replica epoch at the last quiescent snapshot of that namespace
-	serverRestartsLeft int
-	barrier    uint64
-	fpHash     []string
+	acked                []int              // per source: highest ordinal the receiver acknowledged with OK
+	lastQ                []map[string]int   // per replica: ns|cluster -> ordinal at the last quiescent snapshot
+	lastQEpoch           []map[string]int64 // per replica: ns -> replica epoch at the last quiescent snapshot of that namespace
+	serverRestartsLeft   int
+	barrier              uint64
+	fpHash               []string
 	sawRedeliveryApplied bool
 	sawRestartOrSnap     bool
-	snapfailDone map[string]bool
-	lastStarted  *replica
-	restoreSeen  []int32 // per replica and namespace: a raft snapshot install was observed since the last clean quiescent check
-	suspect      *suspectObs
+	snapfailDone         map[string]bool
+	lastStarted          *replica
+	restoreSeen          []int32 // per replica and namespace: a raft snapshot install was observed since the last clean quiescent check
+	suspect              *suspectObs
 }
 
 type suspectObs struct {
@@ -223,13 +223,13 @@ func (rn *runner) violate(sig, summary string, src *source, ord int, obs interfa
 		tail = tail[len(tail)-250:]
 	}
 	w := map[string]interface{}{
-		"scenario":            rn.cfg,
-		"plan":                rn.plan,
-		"offending":           obs,
-		"calls_with_ordinal":  rel,
-		"delivery_tail":       append([]event{}, tail...),
-		"events_total":        len(rn.events),
-		"replay_note":         "re-executes the plan generated from scenario.seed; goroutine timing (concurrent senders, cancel delays, leader transfer offsets) is re-sampled",
+		"scenario":           rn.cfg,
+		"plan":               rn.plan,
+		"offending":          obs,
+		"calls_with_ordinal": rel,
+		"delivery_tail":      append([]event{}, tail...),
+		"events_total":       len(rn.events),
+		"replay_note":        "re-executes the plan generated from scenario.seed; goroutine timing (concurrent senders, cancel delays, leader transfer offsets) is re-sampled",
 	}
 	rn.viol = append(rn.viol, violation{Sig: sig, Summary: fmt.Sprintf("[%s] %s", rn.cfg.Name, summary), Witness: w})
 }
@@ -711,10 +711,10 @@ func (rn *runner) resolveSuspect() {
 // ------------------------------------------------------------ quiescent check
 
 type replicaSnap struct {
-	Replica int                `json:"replica"`
-	Applied uint64             `json:"applied"`
-	Pos     map[string][2]uint64 `json:"pos"`  // cluster -> term,index
-	Data    map[string]srcData `json:"-"`
+	Replica int                  `json:"replica"`
+	Applied uint64               `json:"applied"`
+	Pos     map[string][2]uint64 `json:"pos"` // cluster -> term,index
+	Data    map[string]srcData   `json:"-"`
 }
 
 // quiescentRead returns, for one namespace, a snapshot of positions and data
